@@ -322,6 +322,16 @@ class Laws(Suite):
                    ["L", "-1", XSDP + "integer", None], ["L", "2", XSDP + "integer", None], ["L", "0.5", XSDP + "decimal", None],
                    ["L", "0.5", XSDP + "double", None], ["L", "1.0", XSDP + "double", None], ["L", "a", None, None]]
             return self.make_case(rng.sample(mix, rng.choice([3, 4, 5])))
+        if rng.random() < 0.12:
+            # integers and decimals together (one numeric order through the fast path; 1 / 1.0 / 1.00 tie across datatypes,
+            # which is where the stability of sorted() shows)
+            I, D = XSDP + "integer", XSDP + "decimal"
+            mix = [["L", "1", I, None], ["L", "01", I, None], ["L", "1", D, None], ["L", "1.0", D, None], ["L", "1.00", D, None],
+                   ["L", "1.", D, None], ["L", "0.5", D, None], ["L", ".5", D, None], ["L", "-1", I, None], ["L", "-1.0", D, None],
+                   ["L", "2", I, None], ["L", "10", I, None], ["L", "9.99", D, None], ["L", "-0", D, None], ["L", "0", I, None],
+                   ["L", "+1.10", D, None], ["L", "1.1", D, None], ["L", "true", XSDP + "boolean", None], ["L", "1", None, None],
+                   ["I", "1"]]
+            return self.make_case(rng.sample(mix, rng.choice([3, 4, 5, 6])))
         if rng.random() < 0.3:
             # a cluster: 3-5 literals of one datatype family (half of the time a date/time family)
             fams = {}
@@ -840,9 +850,9 @@ ASSUMPTIONS = [
     "is supplied as an oracle (normalisation is the subject of C09); the model decides only where it is used; 'the same term' for "
     "text read back by from_n3 / Turtle is the literal that default constructor builds (the term itself unless built with normalize=False)",
     "rdflib.DAWG_LITERAL_COLLATION is False and rdflib.NORMALIZE_LITERALS is True (defaults; reflected into Gen/Tables_term.v)",
-    "ordering (<, >, <=, >=) of two literals is modelled for plain/xsd:string/language-tagged, [+-]?[0-9]+ xsd:integer and "
-    "true/false/1/0 xsd:boolean literals; "
-    "for all other pairs of literals (dates, times, durations, decimals, doubles, NaN, ill-typed, custom datatypes) the order is "
+    "ordering (<, >, <=, >=) of two literals is modelled for plain/xsd:string/language-tagged, true/false/1/0 xsd:boolean, "
+    "[+-]?[0-9]+ xsd:integer and [+-]?digits[.digits] xsd:decimal literals (integers and decimals compared exactly, together); "
+    "for all other pairs of literals (doubles/floats, the other integer subtypes, dates, times, durations, NaN/INF, decimal forms with exponent, ill-typed, custom datatypes) the order is "
     "checked by laws only: < and > never raise, inside one datatype < is irreflexive/asymmetric/transitive, sorted() is "
     "reproducible, ties are Literal.eq",
     "well-formed terms (wf_term, named in the theorem statements): strings of code points; a literal has a language tag the "
